@@ -422,6 +422,13 @@ theorem indexChoser_error (j : Nat) (k : DPK X P) (e : SplitErr) :
     split <;> simp
     exact fun h => h.symm
 
+theorem arityNe_iff (n : Nat) (k : DPK X P) :
+    arityNe n k = true ↔ ∃ m, arity k = some m ∧ m ≠ n := by
+  cases k with
+  | single o key => simp [arityNe, arity]
+  | xpub o x p wc => simp [arityNe, arity]
+  | multi o x paths wc => simp [arityNe, arity]
+
 /-- the `j`-th selection of a descriptor -/
 def KDesc.select (d : KDesc (DPK X P)) (j : Nat) : KDesc (DPK X P) :=
   ⟨d.shape, fun a => (d.key a).bind (selectPath j)⟩
